@@ -18,6 +18,12 @@ CLAIMED = {
         note="An encoder/decoder written in a form the template evaluator does not know is reported as ANALYSIS-ERROR (exit 2), not as a violation.",
         ref="DESIGN.md section 4 C02",
     ),
+    "C03": dict(
+        technique="exhaustive table checks over reflected enum / validator tables (descriptor normal forms vs a reviewed reference), exact abstract evaluation of Message.validate per header case, AST body rules for the function validators",
+        text="Exhaustive over the finite product the property quantifies over at the rule level: for each of the 5 versions every command has its sub-type list, every defined sub-type a payload rule (853 rows), every presentation type a child schema (182) whose value types have rules; defined values only grow; every rule, reduced to an acceptance normal form, equals the reviewed serial-API reference table; the header validators Message.validate builds for every (command, sub-type class, child class) accept exactly the integer sets of the statement on -2..300 (1260 field cases); the five function validators satisfy their body rules and raise nothing but vol.Invalid/ValueError.",
+        note="Trusted: voluptuous combinator semantics as encoded in sa/descr.py (All/Any/In/Range/Coerce), the reviewed reference table sa/spec/c03_payload_rules.json, reflection (import only; no validator is invoked). Not decided: the language accepted by int()/float() themselves.",
+        ref="DESIGN.md section 4 C03",
+    ),
 }
 
 NOT_APPLICABLE = {
